@@ -112,7 +112,7 @@ def mapP (k v : Packed) : Packed :=
         let n ← w.toNat?
         -- the harness fills a std::unordered_map with emplace: the first entry of a key stays
         let (es, r') ← parseN (fun ws => do let (a, r) ← k.parse ws; let (b, r') ← v.parse r; pure ((a, b), r')) n r
-        pure (emplaceAll es, r')
+        pure (insertAll k.codec es, r')
       | [] => none,
     print := fun l =>
       let keyed := l.map fun p => (" ".intercalate (k.print p.1), p)
